@@ -79,7 +79,9 @@ MIN_COUNTERS = {
               'recovered_failing_wraps': 300,
               'failed_wrap_twins_compared': 250,
               'unwritable_retries_checked': 500,
-              'unwritable_corrections_checked': 60},
+              'unwritable_corrections_checked': 60,
+              'definitions_parsed_bigarray': 100,
+              'side_effect_units_counted': 10000},
     'thorough': {'definitions_parsed': 50000, 'units_checked': 1000000,
                  'reader_roundtrips': 100000,
                  'width_first_pairs_checked': 100000, 'invalid_rejected': 10000,
@@ -90,12 +92,14 @@ MIN_COUNTERS = {
                  'recovered_failing_wraps': 20000,
                  'failed_wrap_twins_compared': 15000,
                  'unwritable_retries_checked': 20000,
-                 'unwritable_corrections_checked': 3000},
+                 'unwritable_corrections_checked': 3000,
+                 'definitions_parsed_bigarray': 3000,
+                 'side_effect_units_counted': 300000},
 }
 
 KINDS = {'plain': 7000, 'mc': 7000, 'wf': 7000, 'variants': 4500, 'big': 720,
          'invalid': 4500, 'invalid-ctor': 9000, 'wrap': 5000,
-         'unwritable': 4000}
+         'unwritable': 4000, 'bigarray': 600}
 # quick tier sizes (cases); also capped in seconds
 
 
@@ -106,9 +110,10 @@ def plan(tier, seed):
     for kind, n in KINDS.items():
         # at most 16 shards: one wave of workers
         parts = {'big': 2, 'variants': 1, 'invalid': 1, 'wrap': 1,
-                 'unwritable': 1}.get(kind, 2) if tier == 'quick' else \
+                 'unwritable': 1, 'bigarray': 1}.get(kind, 2) \
+            if tier == 'quick' else \
             {'big': 4, 'invalid': 1, 'variants': 1, 'wrap': 1,
-             'unwritable': 1}.get(kind, 2)
+             'unwritable': 1, 'bigarray': 1, 'wf': 1}.get(kind, 2)
         if tier == 'thorough' and kind == 'big':
             n = 600                       # x13 = 7800 big programs
         for p, (f, c) in enumerate(split(n * mult, parts)):
@@ -260,7 +265,44 @@ def structure(d, prog, gg, acc):
         if c != c:
             out.append(('C02/nan-constant', repr(d.constants)))
             break
+    # every output / side-effecting statement of the function is a unit of the
+    # definition (multichannel expansion can only add more of them)
+    want, have = {}, {}
+    expanded = any(nd['k'] == 'sink' and any(
+        o[0] == 'n' and prog['nodes'][o[1]]['k'] != 'idx'
+        and not isinstance(prog['nodes'][o[1]].get('k'), type(None))
+        and _is_list_node(prog, o[1]) for o in nd.get('chans', ()))
+        for nd in prog['nodes'])
+    for nd in prog['nodes']:
+        if nd['k'] == 'sink':
+            want[nd['cls']] = want.get(nd['cls'], 0) + 1
+        elif nd['k'] == 'raw' and nd['src'].startswith('Out.'):
+            want['Out'] = want.get('Out', 0) + 1       # verbatim statements
+    for u in d.units:
+        if u.cls in want:
+            have[u.cls] = have.get(u.cls, 0) + 1
+    for cls, n in want.items():
+        acc.count('side_effect_units_counted', n)
+        h = have.get(cls, 0)
+        if h < n or (h != n and not expanded):
+            out.append((f'C02/side-effect-unit-missing/{cls}' if h < n else
+                        f'C02/side-effect-unit-duplicated/{cls}',
+                        f'the function creates {n} {cls} units, the definition '
+                        f'has {h}'))
     return out
+
+
+def _is_list_node(prog, i):
+    nd = prog['nodes'][i]
+    if nd['k'] == 'list':
+        return True
+    if nd['k'] == 'param':
+        return isinstance(prog['params'][nd['i']]['default'], list)
+    if nd['k'] == 'ugen' and nd['cls'] in ('In', 'Pan2'):
+        return True
+    return any(o[0] == 'n' and _is_list_node(prog, o[1])
+               for o in __import__('vf.gen_graph', fromlist=['x']).operands_of(nd)
+               if nd['k'] in ('un', 'bin', 'madd', 'sumn', 'ugen'))
 
 
 def order(d, prog, gg, acc):
